@@ -69,7 +69,9 @@ fn c03_patch_jump() {
 }
 
 /// A label too close to the end of the body is an index panic, not a silent out-of-bounds write.
-// EXPECT-PANIC: index out of bounds
+// (any bounds panic will do: indexing says "index out of bounds", a slice copy panics with a run-time formatted
+// message that Kani renders as a placeholder)
+// EXPECT-PANIC-ANY: index out of bounds | This is a placeholder message; Kani doesn't support message formatted at runtime | range end index | out of range
 // FN: BytecodeEmitter::patch_jump
 // ALSO: C02
 #[kani::proof]
